@@ -25,6 +25,24 @@ func (e *Engine) specCall(env *SpecEnv, x *SExpr) Value {
 	case "old":
 		need(1)
 		return e.evalSpec(env.inOld(), args[0])
+	case "ifbound":
+		// ifbound(expr): expr, or true when it mentions an identifier that does
+		// not exist in this function (e.g. a variable a closure no longer captures)
+		need(1)
+		var out Value
+		func() {
+			defer func() {
+				if r := recover(); r != nil {
+					if se, ok := r.(specErr); ok && strings.HasPrefix(se.msg, "unknown identifier") {
+						out = TTrue
+						return
+					}
+					panic(r)
+				}
+			}()
+			out = e.evalSpec(env, args[0])
+		}()
+		return out
 	case "len":
 		need(1)
 		switch v := e.evalSpec(env, args[0]).(type) {
